@@ -454,7 +454,7 @@ def _limit(e, x, d, seconds=6):
 _PVALS = [(3, 7), (5, 3), (11, 4), (2, 9), (7, 5), (13, 6)]
 
 
-def overflow_clauses(fwd, bwd, pq):
+def overflow_clauses(fwd, bwd, pq, jac=None):
     """An exponential-type intermediate (exp, sinh, cosh of an argument that grows without bound on the domain) overflows
     the double range at moderate arguments (~710).  That is harmless when the final value overflows too (the function itself
     is exponential) or when the infinity propagates to the correct limit (1/(1+inf) = 0); it is a defect when the final
@@ -465,7 +465,7 @@ def overflow_clauses(fwd, bwd, pq):
     ctx = Ctx()
     x = sp.Symbol("x", real=True)
     built = {}
-    for nm, f in (("_forward", fwd), ("_backward", bwd)):
+    for nm, f in (("_forward", fwd), ("_backward", bwd)) + ((("_jacobian", jac),) if jac is not None else ()):
         vn, e = returning_value(f, pq)
         env = {('sym', 'EPS'): sp.Rational(1, 10 ** 10)}
         opaque_params(e, vn, env, ctx)
@@ -501,7 +501,8 @@ def overflow_clauses(fwd, bwd, pq):
     if not cf and len(fdirs) == 2 and not bdirs:
         bdirs = {sp.oo, -sp.oo}
     dirs["_backward"] = sorted(bdirs, key=str)
-    for nm in ("_forward", "_backward"):
+    dirs["_jacobian"] = fdirs
+    for nm in [k_ for k_ in ("_forward", "_backward", "_jacobian") if k_ in built]:
         F, _c = built[nm]
         seen = set()
         for d in dirs[nm]:
